@@ -15,9 +15,15 @@ from .monitors import bits_equal, check_array_readme, describe, same_dtype
 
 REJECT = object()
 
+
+class Partial:
+    """The call must raise; afterwards the ragged array holds `state` (C10: original + completed subarrays)."""
+    def __init__(self, state):
+        self.state = state
+
 ALPHABET = ['app0', 'app1', 'app3', 'applist', 'iter2', 'iter0', 'trunc0', 'trunc1', 'truncm1', 'trunclen',
             'modecycle', 'reopen']
-EXTRA = ['appbadrank', 'appbadatom', 'appother', 'itergen', 'truncmid', 'trunclen1', 'truncstr', 'truncbelow', 'truncfloat', 'md_set', 'md_pop',
+EXTRA = ['iterfail_atom', 'iterfail_raise', 'iterfail_first', 'appbadrank', 'appbadatom', 'appother', 'itergen', 'truncmid', 'trunclen1', 'truncstr', 'truncbelow', 'truncfloat', 'md_set', 'md_pop',
          'copy', 'recreate', 'app1', 'app3', 'iter2']
 PATTERNS = {'two': [2, 1], 'withempty': [2, 0], 'onlyempty': [0], 'seven': [1, 0, 0, 4, 2, 0, 3], 'one': [3],
             'five': [1, 2, 0, 1, 1], 'six': [1, 1, 1, 1, 0, 2]}
@@ -49,6 +55,21 @@ def build(op, model, rng, dtype, atom):
         bad = (2,) + (atom[:-1] + (atom[-1] + 1,) if atom else (2,))
         x = np.zeros(bad, dtype=dtype)
         return REJECT, lambda D, ra, p: (ra.append(x), ra)[1]
+    if op in ('iterfail_atom', 'iterfail_raise', 'iterfail_first'):
+        g1, g0 = item(rng, dtype, atom, 2), item(rng, dtype, atom, 0)
+        bad = np.zeros((2,) + (atom[:-1] + (atom[-1] + 1,) if atom else (2,)), dtype=dtype)
+        if op == 'iterfail_atom':
+            seq, done = [g1, g0, bad, g1], [g1, g0]
+        elif op == 'iterfail_first':
+            seq, done = [bad, g1], []
+        else:
+            seq, done = None, [g0, g1]
+
+        def gen():
+            yield g0
+            yield g1
+            raise RuntimeError('source failed')
+        return Partial(model + done), lambda D, ra, p: (ra.iterappend(iter(seq) if seq is not None else gen()), ra)[1]
     if op == 'iter2':
         x, y = item(rng, dtype, atom, 2), item(rng, dtype, atom, 0)
         return model + [x, y], lambda D, ra, p: (ra.iterappend([x, y]), ra)[1]
@@ -319,6 +340,13 @@ def run(env, res, case, monitors):
                     new = do(D, ra, path)
                 except Exception as e:
                     raised = e
+                if isinstance(expected, Partial):
+                    res.count('mon.failing_appends')
+                    if raised is None and 'model' in monitors:
+                        res.fail(f'model:failing-append-no-raise:{op}', f'step {i} {op}: failing iterappend returned normally')
+                    raised = None
+                    new = ra
+                    expected = expected.state
                 if expected is REJECT:
                     res.count('mon.rejected_calls')
                     if raised is None:
@@ -364,7 +392,13 @@ def run(env, res, case, monitors):
             if 'model' in monitors:
                 ok = check_model(res, 'live', ra, model, dtype, atom)
                 if ok:
-                    ok = check_model(res, 'fresh', D.RaggedArray(path), model, dtype, atom)
+                    try:
+                        freshh = D.RaggedArray(path)
+                    except Exception as e:
+                        res.fail(f'model:fresh-open-failed:{type(e).__name__}', f'RaggedArray(path) raised {type(e).__name__}: {str(e)[:200]}')
+                        ok = False
+                    else:
+                        ok = check_model(res, 'fresh', freshh, model, dtype, atom)
                 if ok and want_indextype is not None:
                     res.count('mon.indextype_stored')
                     try:
